@@ -488,7 +488,7 @@ func GenScenario(t *rapid.T, p *Profile) *Scenario {
 	for b := 0; b < nb; b++ {
 		blk := Block{DtMs: genDt(t, p, &s.Gen)}
 		if oneIn(t, 7, "dtToZero") {
-			blk.DtRule = 1
+			blk.DtRule = pick(t, []int{1, 1, 2}, "dtRule")
 			blk.DtRef = uniRange(t, 0, 5, "dtRef")
 		}
 		ntx := uniRange(t, 0, p.MaxTxs, "nTxs")
